@@ -81,6 +81,11 @@ class Cont(Value):
     why: str = ""          # site that determined the current inner value
     kind: str = "dict"
     autoviv: bool = False
+    origin: str = ""       # site that created the container (kept by copies)
+
+    def __post_init__(self):
+        if not self.origin:
+            self.origin = self.why
 
     def __repr__(self):
         return f"Cont({'fresh' if self.fresh else 'old'},{self.inner!r})"
@@ -567,6 +572,9 @@ class Frame:
             base = self.ev(target.value)
             self.ev(target.slice)
             self.store_into(base, v, st)
+            if isinstance(base, Cont):
+                # strong update: X[k] = v ; X[k][...] = w  hits v
+                base.last = (norm(target.slice), v)
         elif isinstance(target, ast.Starred):
             self.assign(target.value, v, st)
 
@@ -827,6 +835,9 @@ class Frame:
                 self.event("vivify", base, e)
             return inner_of(base, self)
         if isinstance(base, Cont):
+            last = getattr(base, "last", None)
+            if last is not None and last[0] == norm(e.slice):
+                return last[1]
             if base.inner is DEEPV:
                 base.inner = Cont(True, DEEPV, why=base.why)
             return base.inner
@@ -1044,12 +1055,16 @@ class Frame:
         if isinstance(v, (In, Obj)):
             o = Obj(v.cls)
             for s in self.prog.all_slots(v.cls):
-                o.slots[s] = Cont(True, DEEPV, why="deepcopy")
+                src = v.slots.get(s) if isinstance(v, Obj) else None
+                o.slots[s] = Cont(True, DEEPV, why="deepcopy",
+                                  origin=src.origin if isinstance(src, Cont)
+                                  else "deepcopy")
                 o.why[s] = "deepcopy"
             return o
         if depth(v) >= INF and not isinstance(v, Cont):
             return v
-        return Cont(True, DEEPV, why="deepcopy")
+        return Cont(True, DEEPV, why="deepcopy",
+                    origin=v.origin if isinstance(v, Cont) else "deepcopy")
 
     def instantiate(self, cls: str, args, kwargs, e) -> Value:
         ci = self.prog.classes.get(cls)
@@ -1182,7 +1197,8 @@ DEFAULT_LEVELS = {"_atom_attrs": 2, "_neighbors": 2, "_bond_attrs": 2,
 
 def shallow(v: Value, why: str, frame: Frame | None = None) -> Value:
     if isinstance(v, (Cont, Shared, View)):
-        return Cont(True, inner_of(v, frame), why=why)
+        return Cont(True, inner_of(v, frame), why=why,
+                    origin=v.origin if isinstance(v, Cont) else why)
     if isinstance(v, In) and frame is not None:
         # copy.copy(graph): new object, same containers
         o = Obj(v.cls)
